@@ -391,6 +391,14 @@ fn check_var_case(case: &VarCase, ctx: &mut Ctx) -> Result<(), Fail> {
         let b = Mat::zeros(1, 1);
         if case.f32 { exec::<f32, DenseB>(&op, &a, &b)? } else { exec::<f64, DenseB>(&op, &a, &b)? }
     };
+    // the covariance matrix of the same offset data (rows = observations): accurate relative to the spread as well
+    // (the library centres both factors; the model's tolerance is the rounding of the means times the spread).
+    // Checked first: the variance check below may end in the known one-pass finding.
+    if !case.vector && a.r >= 2 {
+        let b = Mat::zeros(1, 1);
+        let gotc = if case.f32 { exec::<f32, DenseB>(&Op::Cov, &a, &b)? } else { exec::<f64, DenseB>(&Op::Cov, &a, &b)? };
+        compare("dense/cov-offset", &gotc, &model(&Op::Cov, &a, &b, eps))?;
+    }
     check_var(&tag, &a, case.axis, case.std, &got, eps, rel)
 }
 
